@@ -30,7 +30,8 @@ ROutflow(rin, t, lab) == RSumOver(LAMBDA c : RObc(rin, t, c, lab), 1..N)
 
 \* ---- stock-driven: the unique inflow whose inflow-driven stock is the prescribed one.
 \* Defined by forward substitution over whole-period inflows W; needs SF(c,c) # 0.
-Solvable == \A c \in 1..N, lab \in Labs : ~RIsZero(SF(c, c, lab))
+SolvableLab(lab) == \A c \in 1..N : ~RIsZero(SF(c, c, lab))
+Solvable == \A lab \in Labs : SolvableLab(lab)
 RECURSIVE Whole(_, _, _)
 Whole(stock, c, lab) ==     \* whole-period inflow of cohort c
     RDiv(RSub(stock[c][lab],
